@@ -47,6 +47,11 @@ def instances(tier):
             tasks = {f"T{i}": {"strategies": [[8, {"CPU": 1}], [3, {"GPU": 1}]], "deadline": 7, "state": "RELEASED", "release": 0} for i in range(2)}
             inst = {"now": 1, "workers": [{"CPU": 1}, {"GPU": 1}], "graphs": [{"name": f"G{i}", "tasks": [f"T{i}"], "edges": []} for i in range(2)], "tasks": tasks}
             out.append({"name": f"cpu-worker+gpu-worker-{kind}-{opts.get('goal', '')}-d{opts.get('time_discretization', '')}", "kind": kind, "opts": opts, "inst": inst})
+        # three requests of one model: they share ONE WorkProfile and ExecutionStrategy object and compete for a single slot
+        if kind in ("TSG", "TSC", "ILP"):
+            tasks = {f"Q{i}": {"strategies": [[3, 1]], "deadline": 14, "state": "RELEASED", "release": 0, "profile": "M"} for i in range(3)}
+            inst = {"now": 1, "workers": [1], "graphs": [{"name": f"G{i}", "tasks": [f"Q{i}"], "edges": []} for i in range(3)], "tasks": tasks}
+            out.append({"name": f"three-requests-sharing-one-strategy-object-{kind}-{opts.get('goal', '')}-d{opts.get('time_discretization', '')}", "kind": kind, "opts": opts, "inst": inst})
         # a chain whose child carries its own (later) release time, offered through the lookahead
         tasks = {"A": {"strategies": [[3, 1]], "deadline": 30, "state": "RELEASED", "release": 0}, "B": {"strategies": [[3, 1]], "deadline": 30, "release": 9}}
         inst = {"now": 1, "workers": [2], "graphs": [{"name": "G", "tasks": ["A", "B"], "edges": [["A", "B"]]}], "tasks": tasks}
